@@ -933,6 +933,7 @@ class Ctx:
         self.fn_cache = {}
         self.fn_apps = {}
         self.prefer = []
+        self.nondet = False
         if self.deadline is not None and time.time() > self.deadline:
             raise Inconclusive("time budget exhausted after %d paths" % self.stats["paths"])
         if self.stats["paths"] >= self.max_paths:
